@@ -40,7 +40,7 @@ theorem drop_app {α} (a b : List α) (n : Nat) (h : a.length = n) : (a ++ b).dr
 theorem isPrefixOf_app (p r : Bits) : p.isPrefixOf (p ++ r) = true := by
   induction p with
   | nil => simp [List.isPrefixOf]
-  | cons a p ih => simp [List.isPrefixOf, ih]
+  | cons a p ih => simp [ih]
 
 /-- a tag that matches `q ++ r` is comparable with `q` -/
 theorem isPrefixOf_app_cases (p q r : Bits) (h : p.isPrefixOf (q ++ r) = true) :
@@ -280,14 +280,14 @@ instance lawful_ctag (p : Bits) (c : Codec) [hc : Lawful c] : Lawful (ctag p c) 
     simp only [ctag, Option.map_eq_some_iff] at h
     obtain ⟨g, hg, rfl⟩ := h
     have := hc.law v g hg k
-    simp [ctag, isPrefixOf_app, this]
+    simp [ctag, this]
 
 instance lawfulEnd_ctag (p : Bits) (c : Codec) [hc : LawfulEnd c] : LawfulEnd (ctag p c) where
   law v f h := by
     simp only [ctag, Option.map_eq_some_iff] at h
     obtain ⟨g, hg, rfl⟩ := h
     have := hc.law v g hg
-    simp [ctag, isPrefixOf_app, this]
+    simp [ctag, this]
 
 instance lawful_named (n : String) (c : Codec) [hc : Lawful c] : Lawful (named n c) where
   law v f h k := by
